@@ -394,7 +394,7 @@ PROPS = {
     ),
     "C14": dict(
         thm=["Bgpfu.Thm.C14", "Bgpfu.Thm.C05"],
-        ops=[("fuzz", [])],
+        ops=[("fuzz", []), ("frame", ["only-huge"])],
         level_text="Theorems over EVERY event list (well-formed or not, tokenizer errors and EOF anywhere): every reader "
                    "loop consumes at least one event per iteration and never needs more than evs.length+1 iterations "
                    "(readMessage_total, establish_total, reader_loops_bounded), and a message without an rpc-reply root "
